@@ -8,6 +8,7 @@ package c06
 
 import (
 	"bufio"
+	"context"
 	"fmt"
 	"mime"
 	"net/http"
@@ -78,6 +79,11 @@ type scn struct {
 	signal      int // 0 content-length n, 1 content-length 0, 2 chunked, 3 neither
 	body        []byte
 	stream      int // 0 plain 1 zero-length reads first 2 first byte with EOF 3 error before first byte 4 error after first byte 5 empty
+	// a sibling operation on the same path (other method, other consumes list) that is served first on the same Context
+	sibling     bool
+	sibMethod   string
+	sibConsumes []string
+	ctxDone     bool // the request's context has already ended when the gate runs (abandoned request)
 }
 
 func (s *scn) String() string {
@@ -86,7 +92,7 @@ func (s *scn) String() string {
 		reg = append(reg, k)
 	}
 	sort.Strings(reg)
-	return fmt.Sprintf("consumes=%q default=%q registered=%v %s Content-Type=%q (%s) signal=%d body=%d stream=%d", s.consumes, s.defConsumes, reg, s.method, s.header, s.spelling, s.signal, len(s.body), s.stream)
+	return fmt.Sprintf("consumes=%q default=%q registered=%v %s Content-Type=%q (%s) signal=%d body=%d stream=%d sibling=%s%q ctxdone=%v", s.consumes, s.defConsumes, reg, s.method, s.header, s.spelling, s.signal, len(s.body), s.stream, s.sibMethod, s.sibConsumes, s.ctxDone)
 }
 
 func generate(t *kernel.Tape) *scn {
@@ -140,6 +146,20 @@ func generate(t *kernel.Tape) *scn {
 	if s.signal == 2 {
 		s.stream = t.Weighted("stream", 3, 2, 2, 2, 2, 2)
 	}
+	if t.Bool(3, "sibling-operation") {
+		s.sibling = true
+		for _, m := range []string{"PUT", "POST", "PATCH"} {
+			if m != s.method {
+				s.sibMethod = m
+				break
+			}
+		}
+		k := t.Choose(3, "sib-nconsumes")
+		for i := 0; i <= k; i++ {
+			s.sibConsumes = append(s.sibConsumes, consumesPool[t.Choose(len(consumesPool), "sib-consumes")])
+		}
+	}
+	s.ctxDone = t.Bool(6, "context-already-done")
 	return s
 }
 
@@ -232,6 +252,9 @@ func (prop) Run(t *testing.T, tape *kernel.Tape, sc kernel.Scenario) *kernel.Res
 		op.Consumes = []string{}
 	}
 	api.Ops = []simapi.Op{op}
+	if s.sibling {
+		api.Ops = append(api.Ops, simapi.Op{Method: s.sibMethod, Path: "/thing", ID: "sibling", Consumes: s.sibConsumes, Params: op.Params})
+	}
 	doc, err := api.Doc()
 	if err != nil {
 		res.Infra = "description does not load: " + err.Error()
@@ -250,12 +273,15 @@ func (prop) Run(t *testing.T, tape *kernel.Tape, sc kernel.Scenario) *kernel.Res
 	}
 	u.RegisterProducer("application/json", runtime.JSONProducer())
 	u.RegisterOperation(s.method, "/thing", &simapi.Handler{W: world, Op: "thing"})
+	if s.sibling {
+		u.RegisterOperation(s.sibMethod, "/thing", &simapi.Handler{W: world, Op: "sibling"})
+	}
 	ctx := middleware.NewContext(doc, u, nil)
 	_ = ctx.RoutesHandler(nil) // builds the router
 
-	mkRequest := func(label string) (*http.Request, *kernel.Stream, bool) {
+	mkRequestFor := func(label, method string) (*http.Request, *kernel.Stream, bool) {
 		var wire strings.Builder
-		fmt.Fprintf(&wire, "%s /api/thing?q=1 HTTP/1.1\r\nHost: sim.local\r\nAccept: */*\r\n", s.method)
+		fmt.Fprintf(&wire, "%s /api/thing?q=1 HTTP/1.1\r\nHost: sim.local\r\nAccept: */*\r\n", method)
 		if s.spelling != "absent" {
 			fmt.Fprintf(&wire, "Content-Type: %s\r\n", s.header)
 		}
@@ -299,8 +325,35 @@ func (prop) Run(t *testing.T, tape *kernel.Tape, sc kernel.Scenario) *kernel.Res
 			st.Term = &kernel.InjectedError{What: "read error after the first byte"}
 		}
 		r.Body = st
+		if s.ctxDone {
+			cctx, cancel := context.WithCancel(r.Context())
+			cancel()
+			r = r.WithContext(cctx)
+		}
 		has := r.ContentLength > 0 || (r.Header.Get("Content-Length") == "" && readable)
 		return r, st, has
+	}
+	mkRequest := func(label string) (*http.Request, *kernel.Stream, bool) { return mkRequestFor(label, s.method) }
+	if s.sibling {
+		// the sibling operation is served first, through both entry points, with the same header and body
+		env.Fault("sibling-operation-served-first")
+		for _, typed := range []bool{true, false} {
+			if rs, _, _ := mkRequestFor("sibling", s.sibMethod); rs != nil {
+				if route, rq, ok := ctx.RouteInfo(rs); ok {
+					_ = kernel.Catch(func() {
+						if typed {
+							_ = ctx.BindValidRequest(rq, route, &recBinder{})
+						} else {
+							_, _, _ = ctx.BindAndValidate(rq, route)
+						}
+					})
+				}
+			}
+		}
+		*world.Slots[0] = simapi.Obs{AuthScopes: map[string][]string{}}
+	}
+	if s.ctxDone {
+		env.Fault("request-context-already-done")
 	}
 
 	r1, _, hasBody := mkRequest("typed")
